@@ -80,13 +80,24 @@ pub fn build_grammar(d: &mut Dice<'_>, max_branches: usize) -> (Grammar, Spec) {
         } else {
             Regex::Paren(Some(Box::new(Regex::Alt(b.ops.iter().map(|t| Regex::Tok(*t, false)).collect()))))
         };
-        alts.push(Regex::Concat(match b.kind {
+        let mut items = match b.kind {
             Kind::Infix => vec![e.clone(), op, e.clone()],
             Kind::Prefix => vec![op, e.clone()],
             Kind::Postfix => vec![e.clone(), op],
             Kind::Mixfix => vec![e.clone(), op, e.clone(), Regex::Tok(b.aux.unwrap(), false)],
             Kind::Ternary => vec![e.clone(), op, e.clone(), Regex::Tok(b.aux.unwrap(), false), e.clone()],
-        }));
+        };
+        // decorations that must not change the grouping: a leading predicate that holds (`?t`, or
+        // `?n` answered with true by the harness) and a trailing semantic action
+        match d.below(8) {
+            6 => items.insert(0, Regex::Pred(None)),
+            7 => items.insert(0, Regex::Pred(Some(1 + alts.len() as u32))),
+            _ => {}
+        }
+        if d.chance(1, 4) {
+            items.push(Regex::Action(1 + alts.len() as u32));
+        }
+        alts.push(Regex::Concat(items));
     }
     // atoms at random positions
     let a1 = Regex::Tok(atom, false);
@@ -117,6 +128,7 @@ pub fn spec_from_grammar(g: &Grammar) -> Option<Spec> {
     let mut branches = vec![];
     for a in alts {
         let Regex::Concat(items) = a else { continue };
+        let items: Vec<Regex> = items.iter().filter(|r| !matches!(r, Regex::Pred(_) | Regex::Action(_))).cloned().collect();
         let is_e = |r: &Regex| *r == Regex::Ref(1);
         let ops_of = |r: &Regex| -> Option<Vec<usize>> {
             match r {
@@ -429,7 +441,7 @@ pub fn oracle_table(s: &Spec, max_ops: usize, max_parens: usize, cap: usize) -> 
 
 pub struct P07;
 
-const RULE: &str = "grammars `s: e; e: <1-5 operator branches> | N | LP e RP` from choice streams: branch kinds infix, prefix, postfix, mixfix-postfix (e OP e CLOSE), ternary (e OP e SEP e), 1-3 operator tokens per branch written as token or parenthesised alternation, any subset of infix/ternary branches declared `right` (never mixed inside a branch), atoms at random positions among the branches, prefix operators optionally sharing the token of an infix branch; inputs: ALL operator expressions with up to k operator applications and up to 1 pair of parentheses (k = 4 quick, 5-6 thorough; capped per grammar, cap reported), as token strings. Oracle: all parse trees of the ambiguous expression grammar for the string are enumerated and filtered by the definition of precedence-correctness (right spine of a left operand / left spine of a right operand); exactly one survives and must equal the reply tree; zero diagnostics. The interpreter's precedence climbing is cross-checked against the same oracle (self-check). non-trivial = expression with >= 2 operators of one branch, or of two branches in the textual order looser-first, or a prefix/postfix operator next to an infix one (approximated: >= 2 operator applications); distinct = (grammar, expression)";
+const RULE: &str = "grammars `s: e; e: <1-5 operator branches> | N | LP e RP` from choice streams: branch kinds infix, prefix, postfix, mixfix-postfix (e OP e CLOSE), ternary (e OP e SEP e), 1-3 operator tokens per branch written as token or parenthesised alternation, any subset of infix/ternary branches declared `right` (never mixed inside a branch), atoms at random positions among the branches, prefix operators optionally sharing the token of an infix branch, a quarter of the branches with a leading predicate that holds (`?t` or `?n` answered true) and a quarter with a trailing action; inputs: ALL operator expressions with up to k operator applications and up to 1 pair of parentheses (k = 4 quick, 5-6 thorough; capped per grammar, cap reported), as token strings. Oracle: all parse trees of the ambiguous expression grammar for the string are enumerated and filtered by the definition of precedence-correctness (right spine of a left operand / left spine of a right operand); exactly one survives and must equal the reply tree; zero diagnostics. The interpreter's precedence climbing is cross-checked against the same oracle (self-check). non-trivial = expression with >= 2 operators of one branch, or of two branches in the textual order looser-first, or a prefix/postfix operator next to an infix one (approximated: >= 2 operator applications); distinct = (grammar, expression)";
 
 impl LabProp for P07 {
     fn id(&self) -> &'static str {
@@ -469,6 +481,8 @@ impl LabProp for P07 {
         }
         for (i, r) in out.iter_mut().enumerate() {
             r.enc = (i % 2) as u8;
+            // every `?n` holds
+            r.pmode = 1;
         }
         out
     }
